@@ -141,12 +141,75 @@ def bind_call(rel, call, fn):
     return out
 
 
+
+def strip_resets(rel, fn, body, wanted):
+    """leading `self.<attr> = <fresh empty table>` statements of a compute(): all of `wanted` (-> True), or none (-> False).
+    wanted: {attr: set of accepted right-hand sides}"""
+    got = {}
+    i = 0
+    while i < len(body) and isinstance(body[i], ast.Assign) and len(body[i].targets) == 1 \
+            and isinstance(body[i].targets[0], ast.Attribute) and U(body[i].targets[0].value) == "self":
+        attr = body[i].targets[0].attr
+        if attr not in wanted or attr in got or U(body[i].value) not in wanted[attr]:
+            T.fail(rel, body[i], "unexpected assignment to self.%s at the head of compute()" % attr)
+        got[attr] = True
+        i += 1
+    if got and set(got) != set(wanted):
+        T.fail(rel, fn, "compute() resets only some of its tables: %s" % sorted(got))
+    return bool(got), body[i:]
+
+
+def tree_reset_forms(elems, ids):
+    return {"parent": {"[None] * len(self.mesh.%s)" % elems},
+            "children": {"[[] for _ in self.mesh.%s]" % ids, "[[] for v in self.mesh.%s]" % ids},
+            "edges": {"[]"}}
+
+
+def root_check(rel, tree, cls, elems):
+    """`if not (0 <= self.root < len(self.mesh.<elems>)): raise ...` in __init__ -> Gallina test on (r, n); absent -> no test"""
+    fn = T.find_def(tree, cls + ".__init__", rel)
+    found = []
+    for s in T.body_nodoc(fn):
+        if isinstance(s, ast.If) and len(s.body) == 1 and isinstance(s.body[0], ast.Raise) and not s.orelse and "self.root" in U(s.test):
+            found.append(s)
+    if not found:
+        return "true"
+    expect(rel, fn, len(found) == 1, "several range checks on self.root")
+    t = found[0].test
+    neg = False
+    if isinstance(t, ast.UnaryOp) and isinstance(t.op, ast.Not):
+        neg, t = True, t.operand
+    expect(rel, t, isinstance(t, ast.Compare), "unrecognised range check on self.root")
+
+    def zexp(n):
+        txt = U(n)
+        if txt == "self.root":
+            return "r"
+        if txt == "len(self.mesh.%s)" % elems:
+            return "n"
+        if isinstance(n, ast.Constant) and isinstance(n.value, int) and not isinstance(n.value, bool):
+            return "%d%%Z" % n.value if n.value >= 0 else "(%d)%%Z" % n.value
+        if isinstance(n, ast.BinOp) and isinstance(n.op, (ast.Add, ast.Sub)):
+            return "(%s %s %s)%%Z" % (zexp(n.left), "+" if isinstance(n.op, ast.Add) else "-", zexp(n.right))
+        T.fail(rel, n, "unsupported term in the range check on self.root")
+    ops = {ast.Lt: "Z.ltb", ast.LtE: "Z.leb", ast.Gt: "Z.gtb", ast.GtE: "Z.geb", ast.Eq: "Z.eqb"}
+    terms = [t.left] + list(t.comparators)
+    parts = []
+    for a, op, b in zip(terms, t.ops, terms[1:]):
+        expect(rel, t, type(op) in ops, "unsupported comparison in the range check on self.root")
+        parts.append("%s %s %s" % (ops[type(op)], zexp(a), zexp(b)))
+    c = "(" + " && ".join("(%s)" % x for x in parts) + ")"
+    # the test guards a raise: the root is accepted when the guard is false
+    return c if neg else "(negb %s)" % c
+
+
 # ---------------------------------------------------------------------- the BFS of one tree class
 def bfs_class(rel, src, tree, cls, kind):
     parts = []
     comp = T.find_def(tree, cls + ".compute", rel)
     parts.append((cls + ".compute", T.sha(src, comp)))
-    body = T.body_nodoc(comp)
+    elems, ids = {"edge": ("vertices", "id_vertices"), "face": ("faces", "id_faces"), "cell": ("cells", "id_cells")}[kind]
+    resets, body = strip_resets(rel, comp, T.body_nodoc(comp), tree_reset_forms(elems, ids))
     i = 0
     names = {}
     # --- initial assignments: dist, seen, queue (any order)
@@ -333,6 +396,8 @@ def bfs_class(rel, src, tree, cls, kind):
            "  l_newdist := fun dv => %s;\n"
            "  l_root_dist := %d;\n"
            "  l_child := fun dist_inf p_none => %s\n|}.\n") % (kind, l_slot, l_popleft, l_skip, l_better, l_newdist, root_dist, l_child)
+    rec += "Definition %s_resets : bool := %s.\n" % (kind, "true" if resets else "false")
+    rec += "Definition %s_root_ok (r n : Z) : bool := %s.\n" % (kind, root_check(rel, tree, cls, elems))
     return rec, parts
 
 
@@ -455,7 +520,7 @@ def gen():
            "EdgeMinimalSpanningTree does not forward (mesh, starting_vertex, avoid_boundary) and no avoid_edges")
     wa = [s for s in T.body_nodoc(ki) if U(s) == "self.weights = weights"]
     expect(EDGE, ki, len(wa) == 1, "self.weights = weights expected")
-    kb = T.body_nodoc(kc)
+    kr_resets, kb = strip_resets(EDGE, kc, T.body_nodoc(kc), tree_reset_forms("vertices", "id_vertices"))
     # -- weight selector
     sel = kb[0]
     expect(EDGE, sel, isinstance(sel, ast.If), "weight selector expected")
@@ -575,7 +640,8 @@ def gen():
                "Definition kr_take (connected : bool) : bool := %s.\n"
                "Definition kr_popleft : bool := %s.\n"
                "Definition kr_child_keep (x_eq_prev : bool) : bool := %s.\n"
-               % (kr_weight, kr_all, keep[0], rev, kr_take, kr_popleft, kr_child_keep))
+               "Definition kr_resets : bool := %s.\n"
+               % (kr_weight, kr_all, keep[0], rev, kr_take, kr_popleft, kr_child_keep, "true" if kr_resets else "false"))
 
     # ================= forests
     new_root = {}
@@ -587,7 +653,8 @@ def gen():
         s2, t2 = T.load(rel)
         fc = T.find_def(t2, fcls + ".compute", rel)
         parts.append((fcls + ".compute", T.sha(s2, fc)))
-        fb = T.body_nodoc(fc)
+        f_resets, fb = strip_resets(rel, fc, T.body_nodoc(fc), {"trees": {"[]"}, "roots": {"[]"}})
+        new_root[kind + "_resets"] = "true" if f_resets else "false"
         expect(rel, fc, len(fb) == 3 and isinstance(fb[0], ast.Assign) and isinstance(fb[0].targets[0], ast.Name)
                and isinstance(fb[0].value, ast.BinOp) and U(fb[0].value.left) == "[False]" and U(fb[2]) == "super().compute()",
                "forest compute(): visited = [False]*n; for ...; super().compute() expected")
@@ -651,8 +718,11 @@ def gen():
                "Definition forest_forwards_exclusions (k : kind) : bool :=\n"
                "  match k with KEdge => %s | KFace => %s | KCell => %s end.\n"
                "Definition forest_order_is_BFS : bool := %s.\n"
+               "Definition forest_resets (k : kind) : bool :=\n"
+               "  match k with KEdge => %s | KFace => %s | KCell => %s end.\n"
                % (new_root["edge"], cfgs["edge"], cfgs["face"], cfgs["cell"], fwd["edge"], fwd["face"], fwd["cell"],
-                  "true" if orders.pop() == "BFS" else "false"))
+                  "true" if orders.pop() == "BFS" else "false",
+                  new_root["edge_resets"], new_root["face_resets"], new_root["cell_resets"]))
 
     text = T.header("C10: decisions, pop disciplines, weight selector and call plumbing of processing/trees", parts)
     text += ("From Coq Require Import List Arith Bool ZArith.\nImport ListNotations.\nRequire Import MV.C10.Prelude.\n\n"
